@@ -1232,7 +1232,7 @@ def check_helpers_ids(ctx, rep, rid):
     rep.ob(rid, nm, 'num_machines-is-machines-len', ok, 'returns %s' % (shape(rv[0]) if rv else '?'))
 
 
-def check_initial_state(ctx, rep, rid):
+def check_initial_state(ctx, rep, rid, only=None):
     """the initial Framework / MachineRuntime values built by Framework::new"""
     prog, an = ctx.prog, ctx.an
     nw = prog.fn(FW, 'Framework', 'new')
@@ -1257,6 +1257,8 @@ def check_initial_state(ctx, rep, rid):
     rep.count_exact(rid, 'Framework aggregates in new', len(aggs), 1)
     for (site, var, flds, ln) in aggs:
         for f, pred in table.items():
+            if only is not None and f not in only:
+                continue
             if f not in flds:
                 rep.ob(rid, nw, 'init:' + f, False, 'field %s missing from the Framework aggregate' % f)
                 continue
@@ -1275,6 +1277,8 @@ def check_initial_state(ctx, rep, rid):
     rep.count_exact(rid, 'MachineRuntime constructions', len(found), 1)
     for (fn, flds) in found:
         for f, pred in rt.items():
+            if only is not None and f not in only:
+                continue
             if f not in flds:
                 rep.ob(rid, fn, 'runtime-init:' + f, False, 'missing')
                 continue
